@@ -17,7 +17,7 @@ LIBFN = ["abs", "sign", "min", "max", "clamp", "between", "get_bit", "set_bit", 
 THEOREMS = [f"Facto.{f}_elab" for f in LIBFN] + \
            ["Facto.abs_spec", "Facto.sign_spec", "Facto.min_spec", "Facto.max_spec", "Facto.clamp_spec", "Facto.between_spec",
             "Facto.get_bit_spec", "Facto.set_bit_spec", "Facto.toggle_bit_spec", "Facto.clear_bit_spec", "Facto.lerp_spec",
-            "Facto.div_floor_spec_partial"]
+            "Facto.div_floor_spec_partial", "Facto.div_floor_spec", "Facto.mod_positive_spec"]
 
 
 def make_graph(rng, root, k):
